@@ -257,7 +257,8 @@ def parse_decimal(value, *, precision=None, scale=None, **kwargs):
         value = str(value)
     elif isinstance(value, bytes):
         value = value.decode("utf-8")
-    value = value.strip()
+    if isinstance(value, str):
+        value = value.strip()
     factory = DecimalFactory.new_factory(precision, scale)
     return factory(value)
 
